@@ -2,5 +2,10 @@
 
 package transport_controller
 
+import "github.com/aperturerobotics/bifrost/link"
+
 // verifOpDone is a no-op unless built with the verif tag.
 func verifOpDone() {}
+
+// verifOpEvent is a no-op unless built with the verif tag.
+func verifOpEvent(string, link.Link) {}
